@@ -9,7 +9,7 @@ import gc
 from sim import devices
 from sim.canon import Log, snapshot, canon_row, canon_cell, dec_table
 from sim.catalogue import RECIPES, NAMES
-from sim.core import outcome
+from sim.core import outcome, draw_config
 from sim.gen import gen_table
 from sim.loader import load_petl
 from sim.sched import Sched, Violation, gen_schedule
@@ -97,6 +97,7 @@ def gen_case(rng, tier, g):
                                 nrows_hint=max(len(tables[0]) - 1, 2))
     return {'prop': PROP, 'stack': stack, 'tables': tables, 'steps': steps,
             'shape': shape, 'consumer': rng.choice(CONSUMERS),
+            'config': draw_config(rng, 0.1, exclude=('sort_buffersize',)),
             'knobs': {'sort_buffersize': rng.choice([None, None, 2])}}
 
 
